@@ -13,6 +13,7 @@ import CBV.Lemmas.C14Box
 import CBV.Lemmas.C14Quad
 import CBV.Lemmas.C14Grid
 import CBV.Lemmas.C14Guard
+import CBV.Gen.TC14
 
 namespace CBV.C14
 open CBV
